@@ -223,6 +223,11 @@ def _run(repo, rep):
     elif thr is None or thr > 1e-11:
         rep.violated('R-BOUND', key, wl, 'the lambda iteration stops at |d lambda| < %s: looser than 0.1 mm on the ellipsoid' % thr,
                      expected='threshold <= 1e-11', actual=str(thr))
+    elif cap < 100:
+        # the lambda iteration converges linearly with a ratio that tends to 1 towards the antipode: pairs 178 degrees apart (inside the
+        # property's quantifier) need several tens of passes - with a cap of 10 the loop ends unconverged and the distance is metres off
+        rep.violated('R-BOUND', key, wl, 'the lambda iteration is capped at %s passes: point pairs up to 178 degrees apart need several tens of passes to reach %s rad; the loop '
+                     'then ends unconverged' % (cap, thr), expected='a cap of 100 or more (the routine documents 1000)', actual=str(cap))
     else:
         rep.holds('R-BOUND', key, wl, 'iteration cap %s, threshold %s rad' % (cap, thr))
     need = {0: 3, 1: 9, 2: 9}
